@@ -3,6 +3,7 @@
 //        kani/metrics_f1 on the same extracted text.
 use vstd::prelude::*;
 use vstd::std_specs::ops::*;
+use vstd::std_specs::cmp::{PartialOrdSpec, PartialEqSpec};
 verus! {
 #[derive(Debug)]
 pub struct AnyhowError;
@@ -88,10 +89,20 @@ pub open spec fn ratio_spec(tp: int, other: int) -> f64 { f_of(tp).div_spec(f_of
 pub open spec fn fbeta_spec(p: f64, r: f64, b2: f64) -> f64 {
     (1.0f64.add_spec(b2)).mul_spec(p).mul_spec(r).div_spec(b2.mul_spec(p).add_spec(r))
 }
+/// exec `a > b` on f64 (vstd: uninterpreted `partial_cmp_spec`, guarded by `obeys_partial_cmp_spec`)
+pub open spec fn fgt(a: f64, b: f64) -> bool { a.partial_cmp_spec(&b) == Some(core::cmp::Ordering::Greater) }
+#[verifier::external_body]
+pub proof fn axiom_f64_cmp()
+    ensures <f64 as vstd::std_specs::cmp::PartialOrdSpec<f64>>::obeys_partial_cmp_spec(),
+{}
+/// the value of `_f1` as a function of the counts: (F-beta if P + R > 0 else 0, P, R)
+pub open spec fn f1_spec(tp: int, fp: int, fn_: int, beta: f64) -> F1PrecRec {
+    let p = ratio_spec(tp, fp);
+    let r = ratio_spec(tp, fn_);
+    (if fgt(p.add_spec(r), 0.0f64) { fbeta_spec(p, r, powi_spec(beta, 2)) } else { 0.0f64 }, p, r)
+}
 pub open spec fn f1_ok(r: F1PrecRec, tp: int, fp: int, fn_: int, beta: f64) -> bool {
-    &&& r.1 == ratio_spec(tp, fp)
-    &&& r.2 == ratio_spec(tp, fn_)
-    &&& (r.0 == fbeta_spec(r.1, r.2, powi_spec(beta, 2)) || r.0 == 0.0f64)
+    r == f1_spec(tp, fp, fn_, beta)
 }
 
 //@unit src/metrics.rs fn _f1
@@ -101,7 +112,7 @@ fn _f1(tp: usize, fp: usize, fn_: usize, beta: f64) -> (r: F1PrecRec)
     ensures f1_ok(r, tp as int, fp as int, fn_ as int, beta),
 {
     broadcast use axiom_f64_ops;
-    proof { axiom_f64_obeys(); }
+    proof { axiom_f64_obeys(); axiom_f64_cmp(); }
     let precision = vt_f64(tp) / vt_f64((tp + fp).max(1));
     let recall = vt_f64(tp) / vt_f64((tp + fn_).max(1));
     let f1 = if precision + recall > 0.0 {
@@ -135,6 +146,65 @@ pub fn binary_f1(predictions: &[bool], targets: &[bool], beta: f64) -> (res: VtR
 //@end
 
 // ---------------------------------------------------------------- micro averaging
+/// number of positions i < k at which the exec comparison `a[i] == b[i]` was true (eqs = the comparison results)
+pub open spec fn count_true(eqs: Seq<bool>, k: int) -> int
+    decreases k
+{
+    if k <= 0 || k > eqs.len() { 0 } else { count_true(eqs, k - 1) + (if eqs[k - 1] { 1int } else { 0int }) }
+}
+/// (number of equal positions) / max(n, 1)
+pub open spec fn acc_val(c: int, n: int) -> f64 { f_of(c).div_spec(f_of(if n >= 1 { n } else { 1 })) }
+proof fn lemma_count_true_bound(eqs: Seq<bool>, k: int)
+    requires 0 <= k <= eqs.len(),
+    ensures 0 <= count_true(eqs, k) <= k,
+    decreases k
+{
+    if k > 0 { lemma_count_true_bound(eqs, k - 1); }
+}
+//@unit src/metrics.rs fn accuracy
+//@rule R4
+//@rule R32
+//@rule R9_cast
+pub fn accuracy<T: Ord>(predictions: &[T], targets: &[T]) -> (res: VtResult<f64>)
+    ensures
+        // a length mismatch is an error, not a panic
+        res.is_err() <==> predictions.len() != targets.len(),
+        // otherwise (number of equal positions) / max(n, 1); `eqs` are the results of the element comparisons, which are
+        // `eq_spec` whenever the element type's `==` has a specification
+        res.is_ok() ==> exists|eqs: Seq<bool>| eqs.len() == predictions.len()
+            && (T::obeys_eq_spec() ==> forall|i: int| 0 <= i < eqs.len() ==> #[trigger] eqs[i] == predictions[i].eq_spec(&targets[i]))
+            && res.unwrap() == acc_val(#[trigger] count_true(eqs, eqs.len() as int), predictions.len() as int),
+{
+    broadcast use axiom_f64_ops;
+    proof { axiom_f64_obeys(); }
+    if predictions.len() != targets.len() {
+        return Err(vt_anyhow());
+    }
+    let ghost mut eqs: Seq<bool> = Seq::empty();
+    let vt_sum = { let mut vt_acc: usize = 0; for vt_i in 0..vt_min(predictions.len(), targets.len())
+        invariant
+            predictions.len() == targets.len(), eqs.len() == vt_i, vt_acc == count_true(eqs, vt_i as int), vt_acc <= vt_i,
+            T::obeys_eq_spec() ==> forall|i: int| 0 <= i < eqs.len() ==> #[trigger] eqs[i] == predictions[i].eq_spec(&targets[i]),
+    { let (p, t) = (&predictions[vt_i], &targets[vt_i]);
+        let ghost e0 = eqs;
+        let ghost a0 = vt_acc;
+        vt_acc = vt_acc + (p == t) as usize;
+        proof {
+            eqs = e0.push(vt_acc != a0);
+            lemma_count_true_prefix(e0, eqs, vt_i as int);
+        } } vt_acc };
+    Ok(vt_f64(vt_sum)
+        / vt_f64(predictions.len().max(1)))
+}
+//@end
+proof fn lemma_count_true_prefix(a: Seq<bool>, b: Seq<bool>, k: int)
+    requires 0 <= k <= a.len(), a.len() <= b.len(), forall|i: int| 0 <= i < k ==> a[i] == b[i],
+    ensures count_true(a, k) == count_true(b, k),
+    decreases k
+{
+    if k > 0 { lemma_count_true_prefix(a, b, k - 1); }
+}
+
 //@unit src/metrics.rs enum F1Info
 //@rule derive_only(Debug)
 #[derive(Debug)]
@@ -205,6 +275,72 @@ impl TpFpFn {
         }
         let (tps, fps, fns) = vt_acc;
         (_f1(tps, fps, fns, beta), infos)
+    }
+//@end
+
+    /// per-sequence value: (1,1,1) for an empty sequence pair, otherwise the F-beta triple of its counts
+    pub open spec fn seq_val(e: (bool, usize, usize, usize, F1Info), beta: f64) -> F1PrecRec {
+        if e.0 { (1.0f64, 1.0f64, 1.0f64) } else { f1_spec(e.1 as int, e.2 as int, e.3 as int, beta) }
+    }
+    /// left-to-right float sum of component `which` of the first k per-sequence values (the order fold uses)
+    pub open spec fn fsum(v: Seq<(bool, usize, usize, usize, F1Info)>, k: int, which: int, beta: f64) -> f64
+        decreases k
+    {
+        if k <= 0 || k > v.len() { 0.0f64 } else {
+            let x = Self::seq_val(v[k - 1], beta);
+            Self::fsum(v, k - 1, which, beta).add_spec(if which == 0 { x.0 } else if which == 1 { x.1 } else { x.2 })
+        }
+    }
+//@unit src/metrics.rs fn sequence_averaged_f1
+//@rule R20((f64, f64, f64))
+//@rule R9_cast
+    fn sequence_averaged_f1(self, beta: f64) -> (r: (F1PrecRec, Vec<F1Info>))
+        requires
+            // domain: every sequence's counts add up without overflow
+            forall|i: int| 0 <= i < self.vals().len() ==> (#[trigger] self.vals()[i]).1 + self.vals()[i].2 <= usize::MAX && self.vals()[i].1 + self.vals()[i].3 <= usize::MAX,
+        ensures
+            // sequence averaging: the mean (sum / max(n, 1)) of the per-sequence values, component-wise
+            ({ let v = self.vals(); let n = v.len() as int; let num = f_of(if n >= 1 { n } else { 1 });
+               r.0.0 == Self::fsum(v, n, 0, beta).div_spec(num) && r.0.1 == Self::fsum(v, n, 1, beta).div_spec(num) && r.0.2 == Self::fsum(v, n, 2, beta).div_spec(num) }),
+            r.1.len() == self.vals().len(),
+    {
+        broadcast use axiom_f64_ops;
+        proof { axiom_f64_obeys(); }
+        let mut infos = Vec::with_capacity(self.values.len());
+        let ghost vs = self.values@;
+        let ghost n = vs.len() as int;
+        let ghost mut done: int = 0;
+        let mut vt_acc: (f64, f64, f64) = (0.0, 0.0, 0.0);
+        proof { assert(vs == self.vals()); }
+        for (empty, tp, fp, fn_, info) in it: self.values
+            invariant
+                done == it.index@, 0 <= done <= n, it.seq() == vs, n == vs.len(),
+                forall|i: int| 0 <= i < n ==> (#[trigger] vs[i]).1 + vs[i].2 <= usize::MAX && vs[i].1 + vs[i].3 <= usize::MAX,
+                <f64 as AddSpec<f64>>::obeys_add_spec(),
+                vt_acc.0 == Self::fsum(vs, done, 0, beta), vt_acc.1 == Self::fsum(vs, done, 1, beta), vt_acc.2 == Self::fsum(vs, done, 2, beta),
+                infos.len() == done,
+        {
+            broadcast use axiom_f64_ops;
+            proof { assert(vs[done] == (empty, tp, fp, fn_, info)); }
+            let vt_m = {
+                infos.push(info);
+                if empty {
+                    (1.0, 1.0, 1.0)
+                } else {
+                    _f1(tp, fp, fn_, beta)
+                }
+            };
+            let (f1, precision, recall) = vt_acc;
+            let (f1_, precision_, recall_) = vt_m;
+            vt_acc = (f1 + f1_, precision + precision_, recall + recall_);
+            proof {
+                assert(vt_m == Self::seq_val(vs[done], beta));
+                done = done + 1;
+            }
+        }
+        let (f1, precision, recall) = vt_acc;
+        let num = vt_f64(infos.len().max(1));
+        ((f1 / num, precision / num, recall / num), infos)
     }
 //@end
 }
